@@ -339,6 +339,12 @@ func (e *verifEngine) installHook() {
 		if t == nil || e.forced {
 			return // atomic actor (plain req, sweep, ack): no yield
 		}
+		if n == 9 || n == 10 {
+			return // a request parks at the last moment before the shard mutex (point 12), not here
+		}
+		if n == 12 && t.wake {
+			return // a wake-up pass is already parked in front of each of its iterations (points 1-7, 11)
+		}
 		t.ev <- n
 		<-t.resume
 	}
@@ -408,7 +414,7 @@ func (e *verifEngine) resumeThread(j int) {
 	t.resume <- struct{}{}
 	p := <-t.ev
 	// a request that finds its manager replaced starts over and parks at the same point again: keep going
-	for !t.wake && (p == 9 || p == 10) {
+	for !t.wake && p == 12 {
 		t.resume <- struct{}{}
 		p = <-t.ev
 	}
